@@ -27,6 +27,7 @@ type Cfg struct {
 	Bystander  bool  `json:"Bystander"`  // a second connection with one attached fid
 	FixClose   bool  `json:"FixClose"`   // the tree has the close(conn.done) repair: Respond never blocks after close
 	ProcessOps bool  `json:"ProcessOps"` // the implementation overrides SrvReqProcess / SrvReqRespond (delegating)
+	NoTag      int   `json:"NoTag"`      // the spec tag that stands for NOTAG (Tversion), 0 if unused
 }
 
 type Behaviour struct {
@@ -117,6 +118,9 @@ func (k *Case) post() Event {
 	reqs := make([]int, k.Cfg.NT)
 	for t := 1; t <= k.Cfg.NT; t++ {
 		reqs[t-1] = a.Reqs[t]
+		if t == k.Cfg.NoTag {
+			reqs[t-1] = a.Reqs[int(wire.NOTAG)]
+		}
 	}
 	fr := make([]int, k.Cfg.NF)
 	for f := 1; f <= k.Cfg.NF; f++ {
@@ -157,6 +161,12 @@ func (k *Case) msgFor(kind string, tag, fid, newfid, oldtag int) *wire.Msg {
 	case "Flush":
 		m.Type = wire.Tflush
 		m.Oldtag = uint16(oldtag)
+	case "Version": // a Tversion in mid-session: same msize and dialect again
+		m.Type = wire.Tversion
+		m.Tag = wire.NOTAG
+		m.Fid = 0
+		m.Msize = 8192
+		m.Version = "9P2000.u"
 	default:
 		panic("kind " + kind)
 	}
